@@ -148,7 +148,7 @@ Fixpoint steps_ok (c : cfg) (ros : list bool) (uuids : list string) (before : li
 (* ---- fresh_survives over the whole history ---- *)
 (* after an acknowledged Put/Touch of h at time t: at every later point with now < t + ttl some volume
    still holds the block file h (the model theorem is stronger: with mtime >= t).
-   [excl_untrash]: stop looking once an Untrash of h occurs (F14: Untrash renames an older trashed
+   [excl_untrash]: stop looking once an Untrash of h occurs (F20: Untrash renames an older trashed
    copy over the fresh one, after which a trash request may remove it). *)
 Definition fresh_at (h : string) (t : Z) (ls : list listing) : bool :=
   existsb (fun l => l_has_block l h) ls.
@@ -180,9 +180,9 @@ Fixpoint clock_ok (prev : Z) (sts : list sobs) : bool :=
 Definition spec_nofresh_b (c : case) : bool :=
   steps_ok (c_cfg c) (c_ro c) (c_uuid c) (c_init c) (c_steps c).
 Definition spec_b (c : case) : bool := spec_nofresh_b c && fresh_ok (c_cfg c) false (c_steps c).
-(* known finding F14: the only clause violated is fresh_survives, and it holds again once the search
+(* known finding F20: the only clause violated is fresh_survives, and it holds again once the search
    stops at an Untrash of the same hash *)
-Definition known_F14_b (c : case) : bool :=
+Definition known_F20_b (c : case) : bool :=
   spec_nofresh_b c && negb (fresh_ok (c_cfg c) false (c_steps c)) && fresh_ok (c_cfg c) true (c_steps c).
 
 (* ---- model = observation ---- *)
@@ -209,7 +209,7 @@ Definition model_b (c : case) : bool :=
 
 Definition check_case (c : case) : N :=
   ((if model_b c then 0 else 1) +
-   (if spec_b c then 0 else if known_F14_b c then 4 else 2))%N.
+   (if spec_b c then 0 else if known_F20_b c then 4 else 2))%N.
 
 Fixpoint failing_from (i : N) (cs : list case) : list (N * N) :=
   match cs with
@@ -222,6 +222,6 @@ Definition failing (cs : list case) : list (N * N) := failing_from 0%N cs.
 (* short constructors for generated files *)
 Definition B (h : string) (m : Z) : blk := {| b_hash := h; b_mtime := m |}.
 Definition T (h : string) (d m : Z) : tr := {| t_hash := h; t_dead := d; t_mtime := m |}.
-Definition I (h : string) (m : Z) (mount : string) : item := {| i_hash := h; i_mtime := m; i_mount := mount |}.
+Definition It (h : string) (m : Z) (mount : string) : item := {| i_hash := h; i_mtime := m; i_mount := mount |}.
 Definition St (lo now hi : Z) (o : op) (code : N) (after : list listing) : sobs :=
   {| s_lo := lo; s_now := now; s_hi := hi; s_op := o; s_code := code; s_after := after |}.
